@@ -10,6 +10,8 @@ THEOREMS = {"C04": ["apply_patch_replay", "apply_patch_verdicts", "verdicts_are_
             "C17": ["write_now_sets_mode", "refusal_writes_only_rejects"],
             "C18": ["backup_name_spec", "make_backup_for_shape", "ensure_extends", "backup_holds_original", "backup_only_once"]}
 
+K_CTX_EPOCH = ("K-C05-context-epoch-deletion-reversed", "-R of a whole-file deletion in context format written diff -cN style (new name real, epoch time stamp, '--- 0 ----'): 'can't find file to patch', exit 2 (the deletion is only recognised from the new range, which the header scan of a context diff does not see)")
+
 HUNK_RE = re.compile(r"^Hunk #(\d+) (succeeded|FAILED|skipped) at (-?\d+)(?: with fuzz (\d+))?(?: \(offset (-?\d+) lines?\))?\.", re.M)
 SUMMARY_RE = re.compile(r"^(\d+) out of (\d+) hunks? (FAILED|ignored)", re.M)
 
@@ -150,6 +152,9 @@ def judge_c16(s, r):
             b = (b[0], b[1], b[2] if b[0] in "RS" else b"")
         if a != b and p not in al:
             if p in par and (a is None or b is None) and (a or b)[0] == "D":
+                # a missing parent directory of a file the run creates: some file has to stand in it afterwards
+                if b is None and not any(q.startswith(p + "/") and after[q][0] != "D" for q in after):
+                    return "the directory %s was created and nothing was written into it" % p
                 continue
             return "path outside the intended set was touched: %s: %s -> %s" % (p, None if b is None else (b[0], oct(b[1])), None if a is None else (a[0], oct(a[1]), a[2][:40]))
     if r["tmp_left"]:
@@ -420,6 +425,11 @@ def history_runs(run_, exe, rng, n, prop):
                 orig = nws(orig); after2 = nws(after2)
             if name == "R":
                 if r["exit"] != 0:
+                    # (listed in known_findings.txt) a whole-file deletion in context format written diff -cN style -- the new
+                    # name is a real name with the epoch as time stamp -- is not seen as a deletion before its body is read, so
+                    # -R finds no file to create
+                    rep["ctx_epoch_deletion"] = bool(r["exit"] == 2 and b"can't find file to patch" in r["stdout"] and
+                                                     any(x["kind"] == "delete" and x["fmt"] == "context" and b"/dev/null" not in x["text"] for x in s["secs"]))
                     bad.append((idx[j], "apply then apply -R: the reverse run exits %d" % r["exit"], rep)); continue
                 d = diff_trees(orig, after2)
                 if d:
@@ -627,6 +637,27 @@ def run(prop, tier, seed):
                     s0["tree"][sec["path"]] = (k_, 0o444, d_); s0["opts"]["ro"] = "fail"
                 s0["tree"][sec["path"] + ".rej"] = ("R", 0o644, b"someone else's rejects\n")
                 scns.append(add_bystanders(rng, s0))
+            for _ in range(n // 6):
+                # output and reject names in directories that do not exist yet, with failing hunks, with and without --dry-run
+                sec = scen.section(rng, rng.choice(["q", "qd/q"]), kind="change", fmt=rng.choice(["unified", "context", "git"]))
+                o = dict(rng.choice([{"o": "newdir/sub/out"}, {"r": "newdir/x.rej"}, {"o": "newdir/out", "r": "rdir/x.rej"}, {"b": 1, "o": "newdir/sub/out"}]))
+                o.update(rng.choice([{"dry": 1}, {"dry": 1, "f": 1}, {"f": 1}, {}]))
+                scns.append(add_bystanders(rng, scen.base_scenario(rng, [sec], opts=o, drift=rng.choice([0, 0.9, 0.9]))))
+            for _ in range(n // 6):
+                # the three names of a header (old, new, Index:) all differ: the file patched is the first that exists, the others
+                # are bystanders
+                sec = scen.section(rng, "t", kind="change", fmt=rng.choice(["unified", "context"]), nonl=False)
+                names = dict(old="o/" + rng.choice(["one", "d/one"]), new="n/" + rng.choice(["two", "d/two"]), index="i/" + rng.choice(["three", "d/three"]))
+                text = sec["text"].replace(b"a/t", ("x/" + names["old"]).encode(), 1).replace(b"b/t", ("x/" + names["new"]).encode(), 1)
+                text = ("Index: x/%s\n" % names["index"]).encode() + text
+                present = [k for k in ("old", "new", "index") if rng.random() < 0.65] or ["new"]
+                tree = {}
+                for k in present:
+                    scen.add_parents(tree, names[k]); tree[names[k]] = ("R", 0o644, emit.file_bytes(sec["a"]))
+                tree["p.diff"] = ("R", 0o644, text)
+                chosen = names[present[0]]
+                sec2 = dict(sec, path=chosen, newpath=chosen)
+                scns.append(add_bystanders(rng, dict(tree=tree, opts=dict(rng.choice([{}, {"b": 1}]), p=1, i="p.diff"), umask=0o022, secs=[sec2])))
             _, b2, m2 = l2_family(run_, exe, scns, judge_c16, cls=lambda s, r: "exit %d" % r["exit"])
             bad += b2; mism += m2
             # no temporary may stay behind even when setting one up fails half way (fdopen's fcntl) or the run is killed there
@@ -713,7 +744,7 @@ def run(prop, tier, seed):
         return run_.finish()
     if prop in ("C15", "C16", "C17", "C18") and scns:
         mism += ops_family(run_, exe, scns[:(120 if q else 1500)], label=prop + " ops")
-    finish(run_, prop, bad, mism)
+    finish(run_, prop, bad, mism, known=(lambda d, rep: K_CTX_EPOCH if rep.get("ctx_epoch_deletion") else None))
     run_.cov["rule"] = "whole-program scenarios (trees, modes, bystanders, option mixes, drifted targets) run as user nobody with a private TMPDIR; each judged by the property's oracle and compared with the extracted model's run"
     if 'scns' in dir() and scns:
         run_.sample(describe(scns[0]))
